@@ -362,7 +362,7 @@ pub fn run_case_b(t: &Templates, case: &CaseB, reader: Reader, scratch: &Path) -
         *c.borrow_mut() = Some(Ctrl { reader, db: db.clone(), src: src.clone(), prog, at: case.at.clone(), next: 0, log: vec![], points: vec![] });
     });
     CTRL.with(|c| run_steps_at(c.borrow_mut().as_mut().unwrap(), "start"));
-    let res = klukai_types::sqlite3_restore::restore(&src, &db, Duration::from_millis(40));
+    let res = klukai_types::sqlite3_restore::restore(&src, &db, Duration::from_millis(15));
     let after_fail_digest = file_digest(&db);
     // whatever was scheduled at points the restore never reached runs now, then the rest
     let mut ctrl = CTRL.with(|c| c.borrow_mut().take().unwrap());
@@ -487,6 +487,16 @@ pub fn part_b(rep: &Report, tier: Tier, deadline: Instant) -> Value {
             }
             for two in [false, true] {
                 let m = program(two).len();
+                if two && tier == Tier::Quick {
+                    // quick: the reader with a warm cache - its first transaction ran before the
+                    // restore started; only the second transaction's steps are placed
+                    for pl in placements(3, pts.len(), blocks) {
+                        let mut at: Vec<String> = vec!["start".into(); 4];
+                        at.extend(pl.iter().map(|i| pts[*i].clone()));
+                        cases.push(CaseB { mode: *mode, size, two_txns: true, at });
+                    }
+                    continue;
+                }
                 for pl in placements(m, pts.len(), blocks) {
                     cases.push(CaseB { mode: *mode, size, two_txns: two, at: pl.iter().map(|i| pts[*i].clone()).collect() });
                 }
